@@ -324,7 +324,19 @@ impl Exec {
     );
 
     let index = self.index.as_ref().unwrap();
+    if spec.competing_update.is_some() {
+      let competitor = index.clone();
+      let sim = self.sim.clone();
+      self.sim.snapshot(|s| {
+        s.competitor = Some(Arc::new(move || {
+          if let Err(e) = competitor.update() {
+            sim.snapshot(|s| s.note(&format!("competing update failed: {e:#}")));
+          }
+        }))
+      });
+    }
     let result = catch_unwind(AssertUnwindSafe(|| index.update()));
+    self.sim.snapshot(|s| s.competitor = None);
     let outcome = self.sim.end_update();
     self.drain_events();
 
